@@ -147,7 +147,9 @@ Fixpoint dmn_trace (fuel : nat) (e : env) (c : hcfg) (stop : option Z) (now : Z)
       it_lab it :: dmn_trace f e c stop (sleep_to stop te len) (it_hs it) (it_sc it)
   end.
 
-(* daemons._timer (initial_delay = None, idle = None, interval > 0 when given) *)
+(* daemons._timer (initial_delay = None, idle = None, interval > 0 when given).  Since 071710e the state is created /
+   reset inside the loop AFTER the idle wait (`if state is None or (state.done and not ...failure)`); without idle=
+   the first creation happens at the instant the loop is entered, which is the [from_scratch t0] the trace starts from. *)
 Fixpoint tmr_trace (fuel : nat) (e : env) (c : hcfg) (interval : option Z) (sharp : bool) (stop : option Z)
                    (now : Z) (hs : hstate) (sc : script) : list label :=
   match fuel with
